@@ -120,3 +120,212 @@ Proof.
   - intros p Hp. rewrite E1. apply (r_free s R). rewrite <- E5. exact Hp.
   - intros m p Hp. rewrite G in Hp. exact (r_own s R m p Hp).
 Qed.
+
+(* ---- add ---- *)
+Lemma nmem_all_false l : (forall n, nmem n l = false) -> l = [].
+Proof. destruct l as [|a r]; [reflexivity|]. intros H. specialize (H a). simpl in H. rewrite Nat.eqb_refl in H. discriminate. Qed.
+
+Lemma nmem_app n l1 l2 : nmem n (l1 ++ l2) = nmem n l1 || nmem n l2.
+Proof. unfold nmem. apply existsb_app. Qed.
+
+Lemma Rep_absent s id : Rep s -> nmem id (w_structs s) = false ->
+  s_conn (getst s id) = [] /\ s_to (getst s id) = [].
+Proof.
+  intros R Hid. split.
+  - exact (i_absent s (Rep_Inv1 s R) id Hid).
+  - apply nmem_all_false. intros n. destruct (nmem n (s_to (getst s id))) eqn:E; [|reflexivity]. exfalso.
+    apply (r_to s R) in E. destruct E as (z & w & Hl & Ez & _).
+    destruct (r_link s R z w Hl) as [_ Hp]. congruence.
+Qed.
+
+Lemma Rep_add s id n s' : Rep s -> step s (Add id n) = (s', None) -> Rep s'.
+Proof.
+  intros R H. simpl in H. destruct (nmem id (w_structs s)) eqn:Eid; [discriminate|]. injection H as <-.
+  destruct (Rep_absent s id R Eid) as [Hc0 Ht0].
+  set (t := match dget Nat.eqb id (w_store s) with Some t => t | None => fresh_struct id n end).
+  assert (Ht : s_conn t = s_conn (getst s id) /\ s_to t = s_to (getst s id) /\ forall p, In p (s_pins t) -> fst p = id).
+  { unfold t. destruct (dget Nat.eqb id (w_store s)) as [t0|] eqn:E.
+    - assert (Eg : getst s id = t0) by (unfold getst; rewrite E; reflexivity). rewrite Eg.
+      split; [reflexivity|]. split; [reflexivity|]. intros p Hp. rewrite <- Eg in Hp. exact (r_own s R id p Hp).
+    - rewrite Hc0, Ht0. split; [reflexivity|]. split; [reflexivity|].
+      intros p Hp. simpl in Hp. apply in_map_iff in Hp. destruct Hp as (k & <- & _). reflexivity. }
+  destruct Ht as (Hc & Hto & Hp).
+  set (s' := {| w_structs := w_structs s ++ [id]; w_store := dset Nat.eqb id t (w_store s);
+                w_conns := w_conns s; w_clist := w_clist s; w_free := w_free s ++ s_pins t; w_map := w_map s |}).
+  assert (G : forall m, getst s' m = if Nat.eqb m id then t else getst s m).
+  { intros m. unfold getst, s'; cbn [w_store]. destruct (Nat.eqb_spec m id) as [->|Hne].
+    - rewrite ndget_dset_same. reflexivity.
+    - rewrite ndget_dset_other by exact Hne. reflexivity. }
+  assert (GC : forall m, s_conn (getst s' m) = s_conn (getst s m)).
+  { intros m. rewrite G. destruct (Nat.eqb_spec m id) as [->|]; [exact Hc | reflexivity]. }
+  assert (GT : forall m, s_to (getst s' m) = s_to (getst s m)).
+  { intros m. rewrite G. destruct (Nat.eqb_spec m id) as [->|]; [exact Hto | reflexivity]. }
+  assert (P : forall m, nmem m (w_structs s) = true -> nmem m (w_structs s') = true).
+  { intros m Hm. unfold s'; cbn [w_structs]. rewrite nmem_app, Hm. reflexivity. }
+  constructor.
+  - unfold s'; cbn [w_structs]. apply NoDup_snoc; [exact (r_structs s R)|].
+    intros Hin. apply nmem_In in Hin. congruence.
+  - intros m z w. unfold entry. rewrite GC. exact (r_entry s R m z w).
+  - intros m. rewrite GC. exact (r_keys s R m).
+  - exact (r_ckeys s R).
+  - exact (r_clist s R).
+  - exact (r_clist_nd s R).
+  - intros z w Hl. destruct (r_link s R z w Hl) as [H1 H2]. split; [exact H1 | apply P; exact H2].
+  - intros m k. rewrite GT. exact (r_to s R m k).
+  - intros m. rewrite GT. exact (r_to_nd s R m).
+  - intros p Hin. unfold s' in Hin; cbn [w_free] in Hin. apply in_app_or in Hin. destruct Hin as [Hin|Hin].
+    + apply P. exact (r_free s R p Hin).
+    + rewrite (Hp p Hin). unfold s'; cbn [w_structs]. rewrite nmem_app. simpl. rewrite Nat.eqb_refl. apply orb_true_r.
+  - intros m p Hin. rewrite G in Hin. destruct (Nat.eqb_spec m id) as [->|]; [exact (Hp p Hin) | exact (r_own s R m p Hin)].
+Qed.
+
+(* ---- connect ---- *)
+Lemma dget_app {V} (z k : spin) (v : V) l : dget spin_eqb k l = None ->
+  dget spin_eqb z (l ++ [(k, v)]) = match dget spin_eqb z l with Some w => Some w | None => if spin_eqb k z then Some v else None end.
+Proof.
+  intros Hk. induction l as [|[a b] r IH]; simpl.
+  - reflexivity.
+  - simpl in Hk. destruct (spin_eqb_spec a k) as [->|Hak]; [discriminate|].
+    destruct (spin_eqb_spec a z); [reflexivity | apply IH; exact Hk].
+Qed.
+
+Lemma not_clist_no_key s x : Rep s -> ~ In x (w_clist s) -> dget spin_eqb x (w_conns s) = None.
+Proof.
+  intros R Hx. apply dget_None_notin. intros Hin. apply in_map_iff in Hin. destruct Hin as ([a b] & E & Hab).
+  simpl in E. subst a. apply Hx. apply (r_clist s R). exists b. left. exact Hab.
+Qed.
+
+Lemma not_clist_unlinked s x w : Rep s -> ~ In x (w_clist s) -> ~ linked s x w.
+Proof. intros R Hx Hl. apply Hx. apply (r_clist s R). exists w. exact Hl. Qed.
+
+Lemma Rep_connect s x y s' : Rep s -> step s (Connect x y) = (s', None) -> Rep s'.
+Proof.
+  intros R H. pose proof (Rep_Inv1 s R) as I.
+  destruct (Nat.eqb (fst x) (fst y)) eqn:E0; [simpl in H; rewrite E0 in H; discriminate|].
+  destruct (mem x (w_clist s)) eqn:Ex.
+  { simpl in H. rewrite E0, Ex in H.
+    assert (s' = s); [|subst; exact R].
+    destruct (dget spin_eqb x (w_conns s)) as [y'|]; destruct (dget spin_eqb y (w_conns s)) as [x'|];
+      repeat match type of H with context [if ?b then _ else _] => destruct b end;
+      try discriminate; injection H as <-; reflexivity. }
+  destruct (mem y (w_clist s)) eqn:Ey; [simpl in H; rewrite E0, Ex, Ey in H; discriminate|].
+  destruct (mem x (w_free s)) eqn:Fx; [|simpl in H; rewrite E0, Ex, Ey, Fx in H; discriminate].
+  destruct (mem y (w_free s)) eqn:Fy; [|simpl in H; rewrite E0, Ex, Ey, Fx, Fy in H; discriminate].
+  destruct (connect_ok_shape s x y I E0 Ex Ey Fx Fy) as (t1 & t2 & C1 & P1 & C2 & P2 & T1 & T2 & Hs).
+  rewrite Hs in H. injection H as <-. clear Hs.
+  assert (Hne : fst y <> fst x) by (apply Nat.eqb_neq in E0; congruence).
+  assert (Hxy : x <> y) by (intros ->; congruence).
+  apply mem_nIn in Ex. apply mem_nIn in Ey.
+  assert (Kx : dget spin_eqb x (w_conns s) = None) by (apply not_clist_no_key; assumption).
+  assert (Ux : forall w, ~ linked s x w) by (intros w; apply not_clist_unlinked; assumption).
+  assert (Uy : forall w, ~ linked s y w) by (intros w; apply not_clist_unlinked; assumption).
+  assert (Tx : dget spin_eqb x (s_conn (getst s (fst x))) = None) by (apply (i_tbl s I); apply mem_nIn; exact Ex).
+  assert (Ty : dget spin_eqb y (s_conn (getst s (fst y))) = None) by (apply (i_tbl s I); apply mem_nIn; exact Ey).
+  assert (Px : nmem (fst x) (w_structs s) = true) by (apply (r_free s R); apply mem_In; exact Fx).
+  assert (Py : nmem (fst y) (w_structs s) = true) by (apply (r_free s R); apply mem_In; exact Fy).
+  set (s1 := {| w_structs := w_structs s; w_store := w_store s;
+                w_conns := dset spin_eqb x y (w_conns s); w_clist := w_clist s ++ [x; y];
+                w_free := remove1 y (remove1 x (w_free s)); w_map := w_map s |}).
+  change (Rep (setst (setst s1 (fst x) t1) (fst y) t2)).
+  set (s' := setst (setst s1 (fst x) t1) (fst y) t2).
+  assert (G : forall id, getst s' id = if Nat.eqb id (fst y) then t2 else if Nat.eqb id (fst x) then t1 else getst s id).
+  { intros id. unfold s'. destruct (Nat.eqb_spec id (fst y)) as [->|H1]; [apply getst_setst_same|].
+    rewrite getst_setst_other by exact H1.
+    destruct (Nat.eqb_spec id (fst x)) as [->|H2]; [apply getst_setst_same|].
+    rewrite getst_setst_other by exact H2. reflexivity. }
+  assert (Cs : w_conns s' = w_conns s ++ [(x, y)]) by (unfold s', setst, s1; cbn [w_conns]; apply dset_fresh; exact Kx).
+  assert (L : forall z w, linked s' z w <-> linked s z w \/ (z = x /\ w = y) \/ (z = y /\ w = x)).
+  { intros z w. unfold linked. rewrite Cs, !in_app_iff. simpl. split.
+    - intros [[H|[H|[]]]|[H|[H|[]]]]; try (injection H as <- <-); tauto.
+    - intros [[H|H]|[[-> ->]|[-> ->]]]; tauto. }
+  assert (Es : w_structs s' = w_structs s) by reflexivity.
+  assert (Ec : w_clist s' = w_clist s ++ [x; y]) by reflexivity.
+  assert (Ef : w_free s' = remove1 y (remove1 x (w_free s))) by reflexivity.
+  clearbody s'. clear s1.
+  (* the tables *)
+  assert (En : forall m z, entry s' m z =
+                 if Nat.eqb m (fst y) then match entry s m z with Some w => Some w | None => if spin_eqb y z then Some x else None end
+                 else if Nat.eqb m (fst x) then match entry s m z with Some w => Some w | None => if spin_eqb x z then Some y else None end
+                 else entry s m z).
+  { intros m z. unfold entry. rewrite G.
+    destruct (Nat.eqb_spec m (fst y)) as [->|H1]; [rewrite C2; apply dget_app; exact Ty|].
+    destruct (Nat.eqb_spec m (fst x)) as [->|H2]; [rewrite C1; apply dget_app; exact Tx|]. reflexivity. }
+  constructor.
+  - rewrite Es. exact (r_structs s R).
+  - intros m z w. rewrite En, L.
+    destruct (Nat.eqb_spec m (fst y)) as [->|H1].
+    + destruct (entry s (fst y) z) as [w0|] eqn:E.
+      * pose proof (proj1 (r_entry s R (fst y) z w0) E) as [Ez Hl].
+        split.
+        -- intros Hw. injection Hw as <-. auto.
+        -- intros [_ [Hl'|[[-> ->]|[-> ->]]]].
+           ++ f_equal. exact (Rep_functional s z w0 w R Hl Hl').
+           ++ congruence.
+           ++ exfalso. exact (Uy _ Hl).
+      * destruct (spin_eqb_spec y z) as [<-|Hyz].
+        -- split; [intros Hw; injection Hw as <-; auto|]. intros [_ [Hl|[[Ea _]|[_ ->]]]]; [exfalso; exact (Uy _ Hl) | congruence | reflexivity].
+        -- split; [discriminate|]. intros [Ez [Hl|[[-> ->]|[-> ->]]]]; [|congruence|congruence].
+           assert (entry s (fst y) z = Some w) by (apply (r_entry s R); auto). congruence.
+    + destruct (Nat.eqb_spec m (fst x)) as [->|H2].
+      * destruct (entry s (fst x) z) as [w0|] eqn:E.
+        -- pose proof (proj1 (r_entry s R (fst x) z w0) E) as [Ez Hl].
+           split.
+           ++ intros Hw. injection Hw as <-. auto.
+           ++ intros [_ [Hl'|[[-> ->]|[-> ->]]]].
+              ** f_equal. exact (Rep_functional s z w0 w R Hl Hl').
+              ** exfalso. exact (Ux _ Hl).
+              ** congruence.
+        -- destruct (spin_eqb_spec x z) as [<-|Hxz].
+           ++ split; [intros Hw; injection Hw as <-; auto|]. intros [_ [Hl|[[_ ->]|[Ea _]]]]; [exfalso; exact (Ux _ Hl) | reflexivity | congruence].
+           ++ split; [discriminate|]. intros [Ez [Hl|[[-> ->]|[-> ->]]]]; [|congruence|congruence].
+              assert (entry s (fst x) z = Some w) by (apply (r_entry s R); auto). congruence.
+      * rewrite (r_entry s R m z w). split; [tauto|]. intros [Ez [Hl|[[-> ->]|[-> ->]]]]; [auto | congruence | congruence].
+  - intros m. rewrite G.
+    destruct (Nat.eqb_spec m (fst y)) as [->|H1].
+    { rewrite C2, map_app. simpl. apply NoDup_snoc; [exact (r_keys s R (fst y)) | apply dget_None_notin; exact Ty]. }
+    destruct (Nat.eqb_spec m (fst x)) as [->|H2].
+    { rewrite C1, map_app. simpl. apply NoDup_snoc; [exact (r_keys s R (fst x)) | apply dget_None_notin; exact Tx]. }
+    exact (r_keys s R m).
+  - rewrite Cs, map_app. simpl. apply NoDup_snoc; [exact (r_ckeys s R) | apply dget_None_notin; exact Kx].
+  - intros z. rewrite Ec, in_app_iff. simpl. split.
+    + intros [Hz|[<-|[<-|[]]]].
+      * apply (r_clist s R) in Hz. destruct Hz as (w & Hl). exists w. apply L. auto.
+      * exists y. apply L. auto.
+      * exists x. apply L. auto.
+    + intros (w & Hl). apply L in Hl. destruct Hl as [Hl|[[-> _]|[-> _]]]; [left; apply (r_clist s R); eauto | auto | auto].
+  - rewrite Ec.
+    change (w_clist s ++ [x; y]) with (w_clist s ++ [x] ++ [y]). rewrite app_assoc.
+    apply NoDup_snoc; [apply NoDup_snoc; [exact (r_clist_nd s R) | exact Ex]|].
+    rewrite in_app_iff. simpl. intros [Hc|[Hc|[]]]; [exact (Ey Hc) | exact (Hxy Hc)].
+  - intros z w Hl. apply L in Hl. rewrite Es.
+    destruct Hl as [Hl|[[-> ->]|[-> ->]]]; [exact (r_link s R z w Hl) | split; [congruence | exact Px] | split; [congruence | exact Py]].
+  - intros m k. rewrite G.
+    assert (Q : forall (l : list nat) a, nmem k (if nmem a l then l else l ++ [a]) = nmem k l || Nat.eqb k a).
+    { intros l a. destruct (nmem a l) eqn:Ea.
+      - destruct (Nat.eqb_spec k a) as [->|]; [rewrite Ea; reflexivity | rewrite orb_false_r; reflexivity].
+      - rewrite nmem_app. simpl. rewrite orb_false_r. reflexivity. }
+    destruct (Nat.eqb_spec m (fst y)) as [->|H1].
+    + rewrite T2, Q. rewrite orb_true_iff, (r_to s R (fst y) k), Nat.eqb_eq. split.
+      * intros [[z [w [Hl [Hz Hw]]]] | -> ]; [exists z, w; split; [apply L; auto | auto] | exists y, x; split; [apply L; auto | auto]].
+      * intros (z & w & Hl & Hz & Hw). apply L in Hl. destruct Hl as [Hl|[[-> ->]|[-> ->]]]; [left; eauto | congruence | right; symmetry; exact Hw].
+    + destruct (Nat.eqb_spec m (fst x)) as [->|H2].
+      * rewrite T1, Q. rewrite orb_true_iff, (r_to s R (fst x) k), Nat.eqb_eq. split.
+        -- intros [[z [w [Hl [Hz Hw]]]] | -> ]; [exists z, w; split; [apply L; auto | auto] | exists x, y; split; [apply L; auto | auto]].
+        -- intros (z & w & Hl & Hz & Hw). apply L in Hl. destruct Hl as [Hl|[[-> ->]|[-> ->]]]; [left; eauto | right; symmetry; exact Hw | congruence].
+      * rewrite (r_to s R m k). split; intros (z & w & Hl & Hz & Hw).
+        -- exists z, w. split; [apply L; auto | auto].
+        -- apply L in Hl. destruct Hl as [Hl|[[-> ->]|[-> ->]]]; [eauto | congruence | congruence].
+  - intros m. rewrite G.
+    assert (Q : forall (l : list nat) a, NoDup l -> NoDup (if nmem a l then l else l ++ [a])).
+    { intros l a Hl. destruct (nmem a l) eqn:Ea; [exact Hl|]. apply NoDup_snoc; [exact Hl|].
+      intros Hin. apply nmem_In in Hin. congruence. }
+    destruct (Nat.eqb_spec m (fst y)) as [->|H1]; [rewrite T2; apply Q; exact (r_to_nd s R (fst y))|].
+    destruct (Nat.eqb_spec m (fst x)) as [->|H2]; [rewrite T1; apply Q; exact (r_to_nd s R (fst x))|].
+    exact (r_to_nd s R m).
+  - intros p Hp. rewrite Ef in Hp. rewrite Es.
+    apply In_remove1, In_remove1 in Hp. exact (r_free s R p Hp).
+  - intros m p Hp. rewrite G in Hp.
+    destruct (Nat.eqb_spec m (fst y)) as [->|H1]; [rewrite P2 in Hp; exact (r_own s R _ p Hp)|].
+    destruct (Nat.eqb_spec m (fst x)) as [->|H2]; [rewrite P1 in Hp; exact (r_own s R _ p Hp)|].
+    exact (r_own s R m p Hp).
+Qed.
